@@ -165,10 +165,10 @@ Print Assumptions C14_through_stack_identity.
    messages of the resource type, rejected Updates carry statuses (a recovered panic is what makes
    the two differ), read masks have no empty segment.  So for well-formed observations verdict 2 is
    impossible and verdict 0 means both ---- *)
-Theorem C14_judge_sound : forall server init evs streams,
-  C14_guard (KTrace server init evs streams) = true ->
+Theorem C14_judge_sound : forall server init evs streams parts,
+  C14_guard (KTrace server init evs streams parts) = true ->
   trace_wf server init evs = true ->
-  agrees (KTrace server init evs streams) = true -> C14_ok (KTrace server init evs streams) = true.
+  agrees (KTrace server init evs streams parts) = true -> C14_ok (KTrace server init evs streams parts) = true.
 Proof. exact judge_sound. Qed.
 Print Assumptions C14_judge_sound.
 
@@ -191,10 +191,10 @@ Qed.
    model does not produce it *)
 Theorem C14_openclose_masked_get_v0_refuted :
   exists init evs streams,
-    agrees_v0 (KTrace oc_server init evs streams) = true /\
-    C14_guard (KTrace oc_server init evs streams) = true /\
-    C14_ok (KTrace oc_server init evs streams) = false /\
-    agrees (KTrace oc_server init evs streams) = false.
+    agrees_v0 (KTrace oc_server init evs streams []) = true /\
+    C14_guard (KTrace oc_server init evs streams []) = true /\
+    C14_ok (KTrace oc_server init evs streams []) = false /\
+    agrees (KTrace oc_server init evs streams []) = false.
 Proof.
   exists (VM [("states", VL [VM [("direction", VS (SEnum 1)); ("open_percent", VS (SF32 1065353216))]])]).
   exists [TGet "dev" (Some [["preset"]])
@@ -206,9 +206,9 @@ Qed.
    first value, and no later update either *)
 Theorem C14_openclose_dead_pull_v0_refuted :
   exists init evs streams,
-    agrees_v0 (KTrace oc_server init evs streams) = true /\
-    C14_ok (KTrace oc_server init evs streams) = false /\
-    agrees (KTrace oc_server init evs streams) = false.
+    agrees_v0 (KTrace oc_server init evs streams []) = true /\
+    C14_ok (KTrace oc_server init evs streams []) = false /\
+    agrees (KTrace oc_server init evs streams []) = false.
 Proof.
   exists (VM []).
   exists [TOpen "dev" None false;
@@ -220,12 +220,29 @@ Qed.
 Example C14_openclose_repaired :
   judge (KTrace oc_server
            (VM [("states", VL [VM [("direction", VS (SEnum 1)); ("open_percent", VS (SF32 1065353216))]])])
-           [TGet "dev" (Some [["preset"]]) (inl (Some (VM [])))] []) = 0 /\
+           [TGet "dev" (Some [["preset"]]) (inl (Some (VM [])))] [] []) = 0 /\
   judge (KTrace oc_server (VM [])
            [TOpen "dev" None false;
             TUpdate "dev" (inl (VM [("states", VL [VM [("direction", VS (SEnum 1))]])]))]
-           [([("dev", VM []); ("dev", VM [("states", VL [VM [("direction", VS (SEnum 1))]])])], None)]) = 0.
+           [([("dev", VM []); ("dev", VM [("states", VL [VM [("direction", VS (SEnum 1))]])])], None)] []) = 0.
 Proof. vm_compute. split; reflexivity. Qed.
+
+(* recorded (openclosepb, class 3): an UpdatePositions with two positions is two writes of the
+   collection behind the resource; an open stream shows the value in between, which no Get and no
+   Update response ever showed.  The property predicate fails on the observation; with exactly that
+   allowance (n-1 intermediate messages before the response of an Update writing n >= 2 positions)
+   it holds, and the judge answers 103.  The same stream without that Update being a two-position
+   one is a plain failing input (3) *)
+Theorem C14_openclose_piecewise_update_refuted :
+  let p1 := VM [("direction", VS (SEnum 1)); ("open_percent", VS (SF32 1065353216))] in
+  let p2 := VM [("direction", VS (SEnum 2)); ("open_percent", VS (SF32 1065353216))] in
+  let evs := [TOpen "dev" None false; TUpdate "dev" (inl (VM [("states", VL [p1; p2])]))] in
+  let streams := [([("dev", VM []); ("dev", VM [("states", VL [p1])]); ("dev", VM [("states", VL [p1; p2])])], None)] in
+  C14_ok (KTrace oc_server (VM []) evs streams [2%nat]) = false /\
+  relaxed_ok (KTrace oc_server (VM []) evs streams [2%nat]) = true /\
+  judge (KTrace oc_server (VM []) evs streams [2%nat]) = 103 /\
+  judge (KTrace oc_server (VM []) evs streams []) = 3.
+Proof. vm_compute. repeat split; reflexivity. Qed.
 
 (* ---- non-vacuity: a history with two registered names, a masked stream, a rejected Update, an
    unchanged value under an equivalence and a cancel; the model's trace is accepted and changes ---- *)
